@@ -32,7 +32,7 @@ pub struct Case {
     pub tag: String,
 }
 
-pub const POINT_ADV: [&str; 8] = ["pass", "rerandomised-representation", "negated", "doubled", "P1", "off-curve(y+1)", "point-at-infinity", "affine-as-decoded-from-the-wire"];
+pub const POINT_ADV: [&str; 9] = ["pass", "rerandomised-representation", "negated", "doubled", "P1", "off-curve(y+1)", "point-at-infinity", "affine-as-decoded-from-the-wire", "curve-coordinates-stored-with-Z=2"];
 
 fn ident(spec: &str, seed: u64) -> Vec<u8> {
     if let Some(n) = spec.strip_prefix("len:") {
@@ -74,6 +74,13 @@ fn adv_point(p: &Point, code: u16, seed: u64) -> Point {
         3 => lib_g1_affine(&sm9::g1_add(&r, &r)),
         4 => lib_g1_affine(&pr.p1),
         6 => lib_g1(&None, &BigUint::one()),
+        // the affine coordinates of the honest point with Z set to 2: (X, Y) satisfies the affine equation, the object stands
+        // for (x/4, y/8), which is not on the curve
+        8 => {
+            let mut q = lib_g1_affine(&r);
+            q.z = to_mont(&BigUint::from(2u32));
+            q
+        }
         // what a peer that received 04||x||y over the wire hands in: the same point decoded by the library (Z = 1)
         7 => {
             let mut b = vec![0x04u8];
@@ -211,7 +218,7 @@ pub fn eval(ctx: &Ctx, case: &Case) {
     }
     // deliver R_A to B
     let ra_del = adv_point(&ra_pt, case.adv[0], ctx.seed);
-    let bad0 = case.adv[0] == 5 || case.adv[0] == 6;
+    let bad0 = matches!(case.adv[0], 5 | 6 | 8);
     let ra_tampered = bad0 || ref_g1(&ra_del) != fx.x.ra;
     let (r2, log2) = with_rng(fill(&rb), || exch_step_1b(&msk, &ida, &idb, &key_b, &ra_del, case.klen));
     ctx.call();
@@ -257,7 +264,7 @@ pub fn eval(ctx: &Ctx, case: &Case) {
     }
     // deliver R_B to A
     let rb_del = adv_point(&rb_pt, case.adv[1], ctx.seed ^ 1);
-    let bad1 = case.adv[1] == 5 || case.adv[1] == 6;
+    let bad1 = matches!(case.adv[1], 5 | 6 | 8);
     let rb_tampered = bad1 || ref_g1(&rb_del) != fx.x.rb;
     ctx.call();
     let r3 = guard(|| exch_step_2a(&msk, &ida, &idb, &key_a, ra_scalar, &ra_pt, &rb_del, case.klen));
@@ -306,7 +313,7 @@ pub fn replay(ctx: &Arc<Ctx>, v: &Value) {
 pub fn run(ctx: &Arc<Ctx>) {
     refmodels::selftest::run(&["sm3", "sm9"]).unwrap_or_else(|e| ctx.machinery_error(format!("reference self-test failed: {}", e)));
     let n = sm9::params().n.clone();
-    ctx.set_rule("stateright BFS over the man-in-the-middle choices for the two deliveries R_A->B and R_B->A, each in {pass, re-randomised Jacobian representation, affine as decoded from the 65-byte wire form, -R, 2R, P1, off-curve, point at infinity}, on the real exch_step_1a / 1b / 2a with ephemeral scalars fixed through the RNG seam, per configuration (master {Annex ke, seeded} x identity pairs {Alice/Bob, ''/x, seeded} and, on honest runs, identities a normalising implementation would alter: trailing / leading white space, line ends, NUL, case, trailing hid byte); ephemeral scalars r_A, r_B at every value within 130 (thorough 600) of 0 and of N (R_A, R_B against the reference multiplication; the whole exchange for r in N-{1,2,5,10,37,74}); honest paths for every klen 1..=128 (thorough 400) and klen in {8160, 8191, 8192, 8193, 8225, 2^16+1, 2^24+1}; key objects holding Ppub-e / de in Jacobian representations with structured Z; master-key objects that hold only the public key. Invariant: honest deliveries (incl. re-randomised) give SK_A = SK_B = KDF(ID_A||ID_B||R_A||R_B||g1||g2||g3) of the reference (incl. the GM/T 0044.5 example); an off-curve R is refused by the step that receives it; any other altered R makes the two keys differ; no panic.");
+    ctx.set_rule("stateright BFS over the man-in-the-middle choices for the two deliveries R_A->B and R_B->A, each in {pass, re-randomised Jacobian representation, affine as decoded from the 65-byte wire form, -R, 2R, P1, off-curve, point at infinity}, on the real exch_step_1a / 1b / 2a with ephemeral scalars fixed through the RNG seam, per configuration (master {Annex ke, seeded} x identity pairs {Alice/Bob, ''/x, seeded} and, on honest runs, identities a normalising implementation would alter: trailing / leading white space, line ends, NUL, case, trailing hid byte); ephemeral scalars r_A, r_B at every value within 130 (thorough 600) of 0 and of N (R_A, R_B against the reference multiplication; the whole exchange for r in N-{1,2,5,10,37,74}); honest paths for every klen 1..=128 (thorough 400) and klen in {8160, 8191, 8192, 8193, 8225, 2^16+1, 2^24+1}; key objects holding Ppub-e / de in Jacobian representations with structured Z; master-key objects that hold only the public key; both parties under one identity; an R whose curve coordinates are stored under Z = 2. Invariant: honest deliveries (incl. re-randomised) give SK_A = SK_B = KDF(ID_A||ID_B||R_A||R_B||g1||g2||g3) of the reference (incl. the GM/T 0044.5 example); an off-curve R is refused by the step that receives it; any other altered R makes the two keys differ; no panic.");
     let mut g = SplitMix::new(ctx.seed, "c17");
     let annex = Config { ke: "0002E65B0762D042F51F0D23542B13ED8CFA2E9A0E7206361E013A283905E31F".into(), ida: "Alice".into(), idb: "Bob".into(), ra: "00005879DD1D51E175946F23B1B41E93BA31C584AE59A426EC1046A4D03B06C8".into(), rb: "00018B98C44BEF9F8537FB7D071B2C928B3BC65BD3D69E1EEE213564905634FE".into() };
     let seeded_ke = hexbig(&g.nonzero_below(&n));
@@ -366,6 +373,12 @@ pub fn run(ctx: &Arc<Ctx>) {
             cases.push(Case { cfg: c.clone(), klen, adv: [0, 0], tag: format!("honest/cfg{}", ci) });
         }
     }
+    // curve coordinates stored under Z = 2, to either party; and both parties under the same identity
+    for ci in 0..2usize.min(cfgs.len()) {
+        for adv in [[8u16, 0], [0, 8], [1, 8]] {
+            cases.push(Case { cfg: cfgs[ci].clone(), klen: 16, adv, tag: "coordinates-under-foreign-Z".into() });
+        }
+    }
     // ephemeral scalars within W of 0 and of N (one (window, digit) coincidence of a signed-digit ladder sits at a single such
     // scalar): R_A and R_B alone against the reference multiplication, and the full exchange for a handful of them
     {
@@ -399,6 +412,10 @@ pub fn run(ctx: &Arc<Ctx>) {
     // identities on both sides of the 16-bit bit-length limit that SM2 has and SM9 has not, either party
     for (la, lb) in [(8191usize, 5usize), (8192, 5), (5, 8192), (9000, 8191), (65536, 70000)] {
         cfgs.push(mk(&annex.ke, &format!("len:{}", la), &format!("len:{}", lb), &mut g));
+    }
+    // both parties under the same identity (legal: the roles, not the names, tell g1 from g2), also the empty one
+    for (a, b) in [("Alice", "Alice"), ("", ""), ("len:40", "len:40")] {
+        cfgs.push(mk(&annex.ke, a, b, &mut g));
     }
     for c in cfgs.iter().skip(n_cfg_before_idlen) {
         cases.push(Case { cfg: c.clone(), klen: 16, adv: [0, 0], tag: "honest/idlen-sweep".into() });
